@@ -142,7 +142,7 @@ func jsonCells(tier string) []cells.Cell {
 	perms(nil, 2)
 	perms(nil, 3)
 	// oneOf shapes
-	for _, shape := range []string{"2", "3", "disc", "disc+mapping", "disc+partial-mapping", "inline-variants"} {
+	for _, shape := range []string{"2", "3", "disc", "disc+mapping", "disc+partial-mapping", "inline-variants", "shared-optional"} {
 		s, _, _ := cells.Base()
 		addNamed(s, "Cat", spec.Obj(spec.P("kind", spec.T("string")), spec.P("a", spec.T("string"))).Req("kind", "a"))
 		addNamed(s, "Dog", spec.Obj(spec.P("kind", spec.T("string")), spec.P("c", spec.TF("integer", "int32"))).Req("kind", "c"))
@@ -160,6 +160,12 @@ func jsonCells(tier string) []cells.Cell {
 			// fewer mapping entries than variants, and the mapped variants are not the last one
 			top.OneOf = append(top.OneOf, spec.RefTo("Emu"))
 			top.Disc = &spec.Disc{Prop: "kind", Mapping: map[string]string{"kitty": "Cat", "doggo": "Dog"}}
+		case "shared-optional":
+			// variants told apart by a required key that sorts AFTER an optional key they all share
+			addNamed(s, "Company", spec.Obj(spec.P("phone", spec.T("string")), spec.P("vat", spec.T("string")), spec.P("legal", spec.T("string"))).Req("vat"))
+			addNamed(s, "Person", spec.Obj(spec.P("phone", spec.T("string")), spec.P("zfirst", spec.T("string"))).Req("zfirst"))
+			addNamed(s, "Mailbox", spec.Obj(spec.P("phone", spec.T("string")), spec.P("zzaddr", spec.T("string"))).Req("zzaddr"))
+			top.OneOf = []*spec.Schema{spec.RefTo("Company"), spec.RefTo("Person"), spec.RefTo("Mailbox")}
 		case "inline-variants":
 			top.OneOf = []*spec.Schema{spec.Obj(spec.P("x", spec.T("string"))).Req("x"), spec.Obj(spec.P("y", spec.TF("integer", "int32"))).Req("y")}
 		}
